@@ -41,6 +41,7 @@ type c19Result struct {
 	Duplicates        int64
 	FirstDuplicate    string
 	Distinct          int64
+	BadText           int64 // fresh IDs whose rendering was not their own text
 	Handoffs          int64 // consecutive tickets issued to different goroutines
 	MaxRun            int64 // longest run of consecutive tickets of one goroutine
 	MinDistinctWindow int   // fewest distinct goroutines in any window of 64 consecutive tickets
@@ -215,6 +216,11 @@ func c19Child(spec string) {
 		return
 	}
 	runtime.GOMAXPROCS(procs)
+	changeProcs := seed < 0
+	if changeProcs {
+		seed = -seed
+	}
+	var badText int64
 	per := draws / g
 	all := make([][]c19Draw, g)
 	var ticket int64
@@ -235,6 +241,25 @@ func c19Child(spec string) {
 				id := uu.RandomID()
 				t := atomic.AddInt64(&ticket, 1)
 				local = append(local, c19Draw{id, t})
+				// the fresh ID is used at once, as programs do: rendered, while other goroutines draw
+				if k%3 == 0 {
+					var txt string
+					switch k % 9 {
+					case 0:
+						txt = id.String()
+					case 3:
+						txt = strings.TrimPrefix(id.URN(), "urn:uuid:")
+					default:
+						b, _ := id.MarshalText()
+						txt = string(b)
+					}
+					if txt != ref.UUIDText(id.Higher, id.Lower) {
+						atomic.AddInt64(&badText, 1)
+					}
+				}
+				if changeProcs && gi == 0 && k%997 == 0 { // the program resizes its scheduler while IDs are drawn
+					runtime.GOMAXPROCS([]int{1, 2, 4, 16, 3, 8}[(k/997)%6])
+				}
 				if r.Chance(1, 8) { // yields between calls widen the set of interleavings
 					runtime.Gosched()
 				}
@@ -281,6 +306,7 @@ func c19Child(spec string) {
 	}
 	res.Distinct = int64(len(seen))
 	res.Draws = total
+	res.BadText = badText
 	run := int64(1)
 	res.MinDistinctWindow = g
 	for t := 2; t <= total; t++ {
@@ -706,6 +732,8 @@ func runC19(c *rt.Ctx) {
 	}
 	// a process confined to one CPU (single-core container, taskset): code that counts CPUs at start-up takes other paths
 	jobs = append(jobs, &job{g: 8, procs: 4, rep: 0, name: "onecpu-g8-p4"}, &job{g: 2, procs: 1, rep: 0, name: "onecpu-g2-p1"})
+	// the scheduler is resized (GOMAXPROCS grown and shrunk) while IDs are drawn
+	jobs = append(jobs, &job{g: 8, procs: 4, rep: 0, name: "procs-changing-g8"}, &job{g: 64, procs: 16, rep: 1, name: "procs-changing-g64"})
 	// a single-goroutine program whose only other callers are timer callbacks
 	jobs = append(jobs, &job{g: 1, procs: 16, rep: 0, name: "lonely-main-plus-timers"}, &job{g: 1, procs: 2, rep: 1, name: "lonely-main-plus-timers-p2"})
 	// bursts of hundreds and thousands of simultaneous callers (a server under load): far more goroutines inside the call than CPUs
@@ -720,6 +748,9 @@ func runC19(c *rt.Ctx) {
 				defer wg.Done()
 				defer func() { <-sem }()
 				spec := fmt.Sprintf("%d/%d/%d/%d", j.g, j.procs, draws, c.Seed*1000+int64(j.rep))
+				if strings.HasPrefix(j.name, "procs-changing") { // a negative seed tells the child to resize the scheduler
+					spec = fmt.Sprintf("%d/%d/%d/%d", j.g, j.procs, draws, -(c.Seed*1000 + int64(j.rep) + 1))
+				}
 				if strings.HasPrefix(j.name, "lonely") {
 					spec = fmt.Sprintf("lonely/%d", draws*2)
 				}
@@ -808,6 +839,9 @@ func runC19(c *rt.Ctx) {
 					if res.BadVersion+res.BadVariant+res.BadBits > 0 {
 						w.Fail("not-version4-variant1", "draws", args, fmt.Sprintf("%d IDs with wrong version, %d with wrong variant, e.g. %s", res.BadVersion, res.BadVariant, res.FirstBad), "version 4, variant 1 on every ID", "generated ID is not a version 4 / RFC 4122 variant UUID")
 					}
+					if res.BadText > 0 {
+						w.Fail("fresh-id-rendered-as-another", "draws", args, fmt.Sprintf("%d of the IDs rendered right after they were drawn did not give their own text", res.BadText), "every ID renders as itself", "an ID drawn while other goroutines draw was rendered as the text of another ID")
+					}
 					if res.Duplicates > 0 {
 						w.Fail("duplicate-id", "draws", args, fmt.Sprintf("%d duplicates among %d IDs, e.g. %s", res.Duplicates, res.Draws, res.FirstDuplicate), "no duplicate within a run", "the same ID was returned twice in one run")
 					}
@@ -840,6 +874,8 @@ func runC19(c *rt.Ctx) {
 					stats = append(stats, cfgStat{g, procs, rep, int64(res.Draws), res.Handoffs, res.MaxRun, res.Distinct, res.MinDistinctWindow, len(blocks)})
 					if strings.HasPrefix(name, "onecpu") {
 						w.ClassN("config-single-cpu", 1)
+					} else if strings.HasPrefix(name, "procs-changing") {
+						w.ClassN("config-scheduler-resized-while-drawing", 1)
 					} else if strings.HasPrefix(name, "lonely") {
 						w.ClassN("config-single-goroutine-plus-timer-callbacks", 1)
 						if res.Handoffs == 0 {
@@ -886,6 +922,7 @@ func runC19(c *rt.Ctx) {
 	c.Require("config-silence-then-burst", int64(len(pauses)))
 	c.Require("config-burst-of-callers", 3)
 	c.Require("config-single-goroutine-plus-timer-callbacks", 2)
+	c.Require("config-scheduler-resized-while-drawing", 2)
 	for _, g := range []int{1, 2, 8, 64} {
 		c.Require(fmt.Sprintf("config-G%d", g), int64(4*reps))
 	}
